@@ -235,15 +235,20 @@ fn wide_program(rng: &mut Rng) -> (Vec<Op>, VT) {
     (ops, vt)
 }
 
-pub fn sdd_line(rng: &mut Rng, maxvars: usize, maxops: usize) -> String {
-    // one case in ten is a wide-partition program (decided on a copy of the generator state, so
-    // that every other case is generated exactly as before)
+/// the lines of one case: the ordinary program and, for one case in ten, a wide-partition program
+/// IN ADDITION (drawn from a copy of the generator state, so that the ordinary line of every case
+/// is exactly what it was before the family existed)
+pub fn sdd_lines(rng: &mut Rng, maxvars: usize, maxops: usize) -> Vec<String> {
     let mut probe = rng.clone();
+    let mut out = vec![sdd_line(rng, maxvars, maxops)];
     if maxvars >= 6 && probe.chance(1, 10) {
-        if std::env::var("HARNESS_DEBUG").is_ok() { eprintln!("WIDE"); }
         let (ops, vt) = wide_program(&mut probe);
-        return sdd_report(6, &vt, true, 0, &ops);
+        out.push(sdd_report(6, &vt, true, 0, &ops));
     }
+    out
+}
+
+pub fn sdd_line(rng: &mut Rng, maxvars: usize, maxops: usize) -> String {
     let n = rng.range(2, maxvars as u64) as usize;
     let nops = rng.range(6, maxops as u64) as usize;
     let prog = gen_program_x(rng, n, nops, false, true);
